@@ -120,6 +120,22 @@ def select_cases():
     yield dict(space="select", struct="bad-port", sections=bad2, system_config="A", memory_mode="P", cli=None)
 
 
+def port_cases():
+    """the complete mapping lattice: every pair of memories on the two ports x every assignment of the three areas to a port (flat sections and
+    the areas split over a parent and a child), so that every legal and every illegal area mapping occurs - also two areas sharing a port that the
+    system connects to a memory which is legal for only one of them."""
+    areas = ("Sram", "Dram", "OnChipFlash", "OffChipFlash")
+    for a0, a1 in itertools.product(areas, areas):
+        for k, a, c in itertools.product(("Axi0", "Axi1"), repeat=3):
+            secs = {"System_Config.S": dict(core_clock="500e6", axi0_port=a0, axi1_port=a1),
+                    "Memory_Mode.M": dict(const_mem_area=k, arena_mem_area=a, cache_mem_area=c)}
+            yield dict(space="ports", struct="flat|%s,%s|%s%s%s" % (a0, a1, k[-1], a[-1], c[-1]), sections=secs, system_config="S", memory_mode="M", cli=None)
+            secs = {"System_Config.S": dict(core_clock="500e6", axi0_port=a0, axi1_port=a1),
+                    "Memory_Mode.P": dict(const_mem_area=k, arena_mem_area=a, cache_mem_area="Axi0" if c == "Axi1" else "Axi1"),
+                    "Memory_Mode.M": dict(inherit="Memory_Mode.P", cache_mem_area=c)}
+            yield dict(space="ports", struct="child-cache|%s,%s|%s%s%s" % (a0, a1, k[-1], a[-1], c[-1]), sections=secs, system_config="S", memory_mode="M", cli=4096)
+
+
 def impl_resolve(path, acc, system_config, memory_mode, cli):
     from ethosu.vela.architecture_features import ArchitectureFeatures
     from ethosu.vela.tensor import BandwidthDirection, MemArea
@@ -316,7 +332,7 @@ def run(ctx):
     quick = ctx.tier == "quick"
     accs = ["ethos-u55-128", "ethos-u65-256"]
     clis = [None, 0, 65536] if quick else [None, 0, 65536, 1 << 41]
-    cases = list(sys_cases()) + list(mem_cases(clis)) + list(select_cases())
+    cases = list(sys_cases()) + list(mem_cases(clis)) + list(select_cases()) + list(port_cases())
     shards = [(cases[i:i + 400], accs) for i in range(0, len(cases), 400)]
     total = 0
     for n, bad in pmap(_shard, shards):
@@ -340,7 +356,7 @@ def run(ctx):
         traces_validated_against_impl=total + nmain,
         samples=[dict(ini=ini_text(cases[len(cases) // 2]["sections"]), system_config=cases[len(cases) // 2]["system_config"], memory_mode=cases[len(cases) // 2]["memory_mode"])],
         exhaustive=True,
-        rule="every .ini file of the generated space (6 inheritance structures x placements of each option over a 3-level chain x selections x CLI sizes %s) is resolved by the model and by the real ArchitectureFeatures on 2 accelerators; "
+        rule="every .ini file of the generated space (6 inheritance structures x placements of each option over a 3-level chain x selections x CLI sizes %s; plus the complete lattice of 16 port-to-memory pairs x 8 area-to-port assignments, flat and with the cache set in a child section) is resolved by the model and by the real ArchitectureFeatures on 2 accelerators; "
              "%d command-line cases (config name x cwd x memory mode x CLI size) through vela.main()" % (clis, len(mc)),
         evaluations=total + nmain, distinct_nontrivial=len(cases),
     )
